@@ -160,6 +160,11 @@ class _Expr(ast.NodeTransformer):
     def visit_Call(self, node):
         self.generic_visit(node)
         f = node.func
+        # tensor arithmetic / comparisons / logic spelled as functions or (out-of-place) methods -> operators;
+        # x.index_select(d, idx) -> x[:, .., idx]
+        r = _tensor_operator_form(node)
+        if r is not None:
+            return ast.fix_missing_locations(ast.copy_location(r, node))
         # f(*(a, b)) -> f(a, b)
         if any(isinstance(a, ast.Starred) and isinstance(a.value, (ast.Tuple, ast.List)) and not any(isinstance(x, ast.Starred) for x in a.value.elts) for a in node.args):
             new = []
@@ -239,6 +244,59 @@ class _Expr(ast.NodeTransformer):
             if changed:
                 node.keywords = kws
         return node
+
+
+_T_BIN = {"add": ast.Add, "sub": ast.Sub, "subtract": ast.Sub, "mul": ast.Mult, "multiply": ast.Mult, "div": ast.Div, "true_divide": ast.Div, "divide": ast.Div, "matmul": ast.MatMult}
+_T_CMP = {"ge": ast.GtE, "gt": ast.Gt, "le": ast.LtE, "lt": ast.Lt, "eq": ast.Eq, "ne": ast.NotEq, "greater_equal": ast.GtE, "greater": ast.Gt, "less_equal": ast.LtE, "less": ast.Lt, "not_equal": ast.NotEq}
+_T_LOGIC = {"logical_and": ast.BitAnd, "logical_or": ast.BitOr}
+_T_UNARY = {"exp", "log", "log1p", "log2", "log10", "abs", "sqrt", "rsqrt", "sigmoid", "tanh", "reciprocal", "sign", "square", "expm1", "floor", "ceil", "diag", "atan", "sin", "cos", "erf"}
+
+
+def _tensor_operator_form(call):
+    """the operator spelling of torch.mul(a, b) / a.mul(b) / torch.ge(a, b) / torch.logical_and(a, b) /
+    torch.logical_not(a) / torch.neg(a) / a.index_select(d, idx); None for anything else.  Only the
+    out-of-place forms without extra arguments (alpha=, out=, rounding_mode=) are rewritten."""
+    f = call.func
+    if not isinstance(f, ast.Attribute) or call.keywords and not (f.attr == "index_select"):
+        return None
+    is_mod = isinstance(f.value, ast.Name) and f.value.id == "torch"
+    if isinstance(f.value, ast.Name) and f.value.id in ("np", "math", "operator", "F", "nn", "init", "check", "torchutils", "typechecks", "warnings", "itertools", "functools"):
+        return None
+    args = list(call.args) if is_mod else [f.value] + list(call.args)
+    if any(isinstance(a, ast.Starred) for a in args):
+        return None
+    name = f.attr
+    if name in _T_BIN and len(args) == 2:
+        return ast.BinOp(left=args[0], op=_T_BIN[name](), right=args[1])
+    if name in _T_CMP and len(args) == 2:
+        return ast.Compare(left=args[0], ops=[_T_CMP[name]()], comparators=[args[1]])
+    if name in _T_LOGIC and len(args) == 2 and is_mod:
+        return ast.BinOp(left=args[0], op=_T_LOGIC[name](), right=args[1])
+    if name == "logical_not" and len(args) == 1 and is_mod:
+        return ast.UnaryOp(op=ast.Invert(), operand=args[0])
+    if name in ("neg", "negative") and len(args) == 1:
+        return ast.UnaryOp(op=ast.USub(), operand=args[0])
+    if name in _T_UNARY and len(args) == 1 and not is_mod and not call.keywords:
+        # x.exp() -> torch.exp(x): the spelling the repository uses throughout
+        return ast.Call(func=ast.Attribute(value=ast.Name(id="torch", ctx=ast.Load()), attr=name, ctx=ast.Load()), args=[args[0]], keywords=[])
+    if name in ("addcmul", "addcdiv") and len(args) == 3:
+        # a + b * c  /  a + b / c   (value=1)
+        return ast.BinOp(left=args[0], op=ast.Add(), right=ast.BinOp(left=args[1], op=ast.Mult() if name == "addcmul" else ast.Div(), right=args[2]))
+    if name == "index_select":
+        kw = {k.arg: k.value for k in call.keywords}
+        if len(args) == 3 and not kw:
+            x, d, idx = args
+        elif len(args) == 1 and set(kw) == {"dim", "index"}:
+            x, d, idx = args[0], kw["dim"], kw["index"]
+        elif len(args) == 2 and set(kw) == {"index"}:
+            x, d, idx = args[0], args[1], kw["index"]
+        else:
+            return None
+        if isinstance(d, ast.Constant) and isinstance(d.value, int) and not isinstance(d.value, bool) and 0 <= d.value <= 4:
+            full = [ast.Slice(lower=None, upper=None, step=None) for _ in range(d.value)]
+            sl = ast.Tuple(elts=full + [idx], ctx=ast.Load()) if full else idx
+            return ast.Subscript(value=x, slice=sl, ctx=ast.Load())
+    return None
 
 
 def _literal_seq(e):
@@ -486,7 +544,7 @@ class Desugar:
             elif isinstance(value, list):
                 setattr(st, field, [ex.visit(v) if isinstance(v, ast.AST) else v for v in value])
         res = [st]
-        for rewrite in (self._chain, self._walrus, self._reduce, self._for, self._unpack, self._cond_tuple, self._lift_callee_choice):
+        for rewrite in (self._index_copy, self._chain, self._walrus, self._reduce, self._for, self._unpack, self._cond_tuple, self._lift_callee_choice):
             nxt = []
             for s in res:
                 r = rewrite(s)
@@ -739,6 +797,18 @@ class Desugar:
 
         a, b = variant(m.body), variant(m.orelse)
         return [ast.fix_missing_locations(ast.copy_location(ast.If(test=copy.deepcopy(m.test), body=[a], orelse=[b]), st))]
+
+    # -- out.index_copy_(d, idx, v) as a statement: out[:, idx] = v ---------------------------------------
+    def _index_copy(self, st):
+        if not (isinstance(st, ast.Expr) and isinstance(st.value, ast.Call) and isinstance(st.value.func, ast.Attribute) and st.value.func.attr == "index_copy_" and len(st.value.args) == 3 and not st.value.keywords):
+            return None
+        d, idx, v = st.value.args
+        if not (isinstance(d, ast.Constant) and isinstance(d.value, int) and not isinstance(d.value, bool) and 0 <= d.value <= 4):
+            return None
+        full = [ast.Slice(lower=None, upper=None, step=None) for _ in range(d.value)]
+        sl = ast.Tuple(elts=full + [idx], ctx=ast.Load()) if full else idx
+        tgt = ast.Subscript(value=st.value.func.value, slice=sl, ctx=ast.Store())
+        return [ast.fix_missing_locations(ast.copy_location(ast.Assign(targets=[tgt], value=v), st))]
 
     # -- chain assignment of a tuple display: a = b, c = X, Y  ->  b, c = X, Y ; a = (b, c) ------------------
     def _chain(self, st):
